@@ -185,7 +185,7 @@ def build_spec(api, feats, payload_at=None):
         n = S.add("       " + S.stmt("actionblock", *pay("actionblock")))
         S.probes["actionblock"] = n
         S.add("     %}")
-    if api != "c99" and ("oraction" in feats or pr == "actionor"):
+    if "oraction" in feats or pr == "actionor":
         S.add("d    |")
         if "blank" in feats:
             S.add("")
@@ -429,8 +429,6 @@ def run(tier):
     apis_payload = ["nr"] if quick else ["nr", "r", "c99"]
     for api in apis_payload:
         for region in REGIONS:
-            if api == "c99" and region == "actionor":
-                continue
             for carrier in CARRIERS:
                 pls = CHARLITS if carrier == "charlit" else PAYLOADS
                 for pl in pls:
@@ -491,7 +489,6 @@ def run(tier):
                        "every listed subset of layout features with a __LINE__ probe in every region: each probe reports its own input line, each "
                        "'#line N \"lex.yy.c\"' stands on output line N-1, and -L / %option noline leave no #line; distinct_nontrivial = distinct "
                        "(region, payload, carrier) triples and distinct layout subsets whose run was clean, counted on this run")
-    ck.assumptions += ["user code is valid C in its place (balanced braces outside literals and comments, as the manual requires)",
-                       "'|' actions are not generated for the c99 back end (it cannot process them at all; recorded in DESIGN.md)"]
+    ck.assumptions += ["user code is valid C in its place (balanced braces outside literals and comments, as the manual requires)"]
     ck.guard(nprobes > 1000, "too few line probes evaluated: %d" % nprobes)
     return ck.finish()
